@@ -207,7 +207,7 @@ func isLockRef(t types.Type) bool {
 	if t, ok := t.(*types.Pointer); ok {
 		if t, ok := t.Elem().(*types.Named); ok {
 			name := t.Obj()
-			return name.Pkg().Name() == "sync" &&
+			return name.Pkg() != nil && name.Pkg().Name() == "sync" &&
 				name.Name() == "Mutex"
 		}
 	}
@@ -218,7 +218,7 @@ func isCFMutexRef(t types.Type) bool {
 	if t, ok := t.(*types.Pointer); ok {
 		if t, ok := t.Elem().(*types.Named); ok {
 			name := t.Obj()
-			return name.Pkg().Name() == "cfmutex" &&
+			return name.Pkg() != nil && name.Pkg().Name() == "cfmutex" &&
 				name.Name() == "CFMutex"
 		}
 	}
@@ -229,7 +229,7 @@ func isCondVar(t types.Type) bool {
 	if t, ok := t.(*types.Pointer); ok {
 		if t, ok := t.Elem().(*types.Named); ok {
 			name := t.Obj()
-			return name.Pkg().Name() == "sync" &&
+			return name.Pkg() != nil && name.Pkg().Name() == "sync" &&
 				name.Name() == "Cond"
 		}
 	}
@@ -240,7 +240,7 @@ func isWaitGroup(t types.Type) bool {
 	if t, ok := t.(*types.Pointer); ok {
 		if t, ok := t.Elem().(*types.Named); ok {
 			name := t.Obj()
-			return name.Pkg().Name() == "sync" &&
+			return name.Pkg() != nil && name.Pkg().Name() == "sync" &&
 				name.Name() == "WaitGroup"
 		}
 	}
@@ -251,7 +251,8 @@ func isProphId(t types.Type) bool {
 	if t, ok := t.(*types.Pointer); ok {
 		if t, ok := t.Elem().(*types.Named); ok {
 			name := t.Obj()
-			return (name.Pkg().Name() == "machine" || name.Pkg().Name() == "primitive") &&
+			return name.Pkg() != nil &&
+				(name.Pkg().Name() == "machine" || name.Pkg().Name() == "primitive") &&
 				name.Name() == "prophId"
 		}
 	}
@@ -277,7 +278,8 @@ func isString(t types.Type) bool {
 func isDisk(t types.Type) bool {
 	if t, ok := t.(*types.Named); ok {
 		obj := t.Obj()
-		if (obj.Pkg().Path() == "github.com/goose-lang/goose/machine/disk" || obj.Pkg().Path() == "github.com/goose-lang/primitive/disk") &&
+		if obj.Pkg() != nil &&
+			(obj.Pkg().Path() == "github.com/goose-lang/goose/machine/disk" || obj.Pkg().Path() == "github.com/goose-lang/primitive/disk") &&
 			obj.Name() == "Disk" {
 			return true
 		}
@@ -335,7 +337,7 @@ func (ctx Ctx) getStructInfo(t types.Type) (structTypeInfo, bool) {
 		throughPointer = true
 		t = pt.Elem()
 	}
-	if t, ok := t.(*types.Named); ok {
+	if t, ok := t.(*types.Named); ok && t.Obj().Pkg() != nil {
 		name := ctx.qualifiedName(t.Obj())
 		if structType, ok := t.Underlying().(*types.Struct); ok {
 			return structTypeInfo{
@@ -357,7 +359,7 @@ func (ctx Ctx) getInterfaceInfo(t types.Type) (interfaceTypeInfo, bool) {
 	if pt, ok := t.(*types.Pointer); ok {
 		t = pt.Elem()
 	}
-	if t, ok := t.(*types.Named); ok {
+	if t, ok := t.(*types.Named); ok && t.Obj().Pkg() != nil {
 		name := ctx.qualifiedName(t.Obj())
 		if interfaceType, ok := t.Underlying().(*types.Interface); ok {
 			return interfaceTypeInfo{
